@@ -462,6 +462,7 @@ type c10Rule struct {
 	p    *refnum.Num
 	prec int
 	text string
+	far  *refnum.Num // band rules: the other bound, 1000 away, exclusive
 }
 
 func (r c10Rule) expect(d *refnum.Num) bool {
@@ -479,6 +480,10 @@ func (r c10Rule) expect(d *refnum.Num) bool {
 		return refnum.Cmp(d, r.p) < 0
 	case "precision":
 		return d.FracLen() <= r.prec
+	case "band-max": // max: p (explicitly NOT exclusive) next to an exclusive minimum far below
+		return refnum.Cmp(d, r.p) <= 0 && refnum.Cmp(d, r.far) > 0
+	case "band-min": // min: p (explicitly NOT exclusive) next to an exclusive maximum far above
+		return refnum.Cmp(d, r.p) >= 0 && refnum.Cmp(d, r.far) < 0
 	}
 	return true
 }
@@ -555,6 +560,22 @@ func c10Schemas(r *mon.Rng, ptext string) []c10Rule {
 			c10Rule{typ: "integer", rule: rule, p: p, text: iex + " // " + body},
 			c10Rule{typ: "float", rule: rule, p: p, text: fex + " // " + body})
 	}
+	// both bounds on one node, one flag true and the other explicitly false: the flags are
+	// independent of each other, in either written order
+	lowI := new(big.Int).Sub(c10Floor(p.Rat()), big.NewInt(1000))
+	highI := new(big.Int).Add(c10Ceil(p.Rat()), big.NewInt(1000))
+	low, high := refnum.MustParse(lowI.String()), refnum.MustParse(highI.String())
+	bmax := "{min: " + low.Text + ", exclusiveMinimum: true, max: " + ptext + ", exclusiveMaximum: false}"
+	bmin := "{min: " + ptext + ", exclusiveMinimum: false, max: " + high.Text + ", exclusiveMaximum: true}"
+	if r.Bool() {
+		bmax = "{max: " + ptext + ", exclusiveMaximum: false, exclusiveMinimum: true, min: " + low.Text + "}"
+		bmin = "{exclusiveMaximum: true, max: " + high.Text + ", min: " + ptext + ", exclusiveMinimum: false}"
+	}
+	out = append(out,
+		c10Rule{typ: "integer", rule: "band-max", p: p, far: low, text: intLit(c10Floor(p.Rat())) + " // " + bmax},
+		c10Rule{typ: "float", rule: "band-max", p: p, far: low, text: floatOf(p) + " // " + bmax},
+		c10Rule{typ: "integer", rule: "band-min", p: p, far: high, text: intLit(c10Ceil(p.Rat())) + " // " + bmin},
+		c10Rule{typ: "float", rule: "band-min", p: p, far: high, text: floatOf(p) + " // " + bmin})
 	return out
 }
 
@@ -604,7 +625,10 @@ func c10JudgeDoc(c *mon.Ctx, s *njs.Schema, r c10Rule, d *refnum.Num) {
 	}
 	fresh := lib.Validate(lib.Spec{Text: r.text}, d.Text)
 	if fresh.Verdict() == want {
-		c.Inconclusive("verdict differs between a reused and a fresh schema object (history dependence, see C11)")
+		// the statement: the verdict depends ONLY on the number's value - not on the numerals
+		// this schema object has seen before
+		c.Violate("api-reused", c10APICase{r.text, d.Text}, want, got,
+			fmt.Sprintf("Validate(%s) under `%s` on a schema object that validated other numerals before: %s; a fresh object and exact arithmetic say %s", d.Text, r.text, o.String(), want))
 		return
 	}
 	if want == "accept" && fresh.Verdict() == "reject" && c10ZeroExp(d.Text) && !c10Recognised(d.Text) {
@@ -1002,6 +1026,7 @@ func init() {
 				got, _ := c10CmpObserve(m["a"], m["b"])
 				return got
 			},
+			"api-reused": func(json.RawMessage) string { return "needs the history of the schema object: not replayable from the case alone" },
 			"api": func(raw json.RawMessage) string {
 				var cs c10APICase
 				if err := json.Unmarshal(raw, &cs); err != nil {
